@@ -169,6 +169,77 @@ def variants(spec: dict) -> list:
     return out
 
 
+MUT_OPS = ["kwargs-setitem", "kwargs-delitem", "endpoint-setitem", "filters-append", "filters-pop", "assign-n_mazes", "assign-name", "assign-seed", "assign-grid_n"]
+
+
+def _mutation_phase(spec, i, cs, cfg, h0, events):
+    """History clause of 'its hash depends only on its serialised content': a live configuration object is read
+    (hash / file name), then changed - by field assignment or by mutating one of its container fields in place, as
+    the library itself does (`cfg.applied_filters.append`, `cfg.n_mazes = len(...)`) - and read again.  After every
+    step the identity must be that of a *freshly built* configuration with the same serialised text, and must differ
+    from the identity before the step (the step changed a field the statement lists)."""
+    r = random.Random(core.H("c18-mut", spec.get("seed", 0), i))
+    cur = json.loads(json.dumps(cs))
+    h_prev = h0
+    text_prev = json.dumps(cfg.serialize())
+    for step in range(r.randint(1, 3)):
+        op = r.choice(MUT_OPS)
+        if op == "kwargs-setitem":
+            k, v = f"__m{step}__", r.randint(0, 9)
+            cfg.maze_ctor_kwargs[k] = v
+            cur.setdefault("maze_ctor_kwargs", {})[k] = v
+        elif op == "kwargs-delitem":
+            if not cfg.maze_ctor_kwargs:
+                continue
+            k = sorted(cfg.maze_ctor_kwargs)[0]
+            del cfg.maze_ctor_kwargs[k]
+            del cur["maze_ctor_kwargs"][k]
+        elif op == "endpoint-setitem":
+            v = not cfg.endpoint_kwargs.get("deadend_end", False)
+            cfg.endpoint_kwargs["deadend_end"] = v
+            cur.setdefault("endpoint_kwargs", {})["deadend_end"] = v
+        elif op == "filters-append":
+            cfg.applied_filters.append(dict(name="path_length", args=(step + 1,), kwargs={}))
+            cur.setdefault("applied_filters", []).append({"name": "path_length", "args": [step + 1], "kwargs": {}})
+        elif op == "filters-pop":
+            if not cfg.applied_filters:
+                continue
+            cfg.applied_filters.pop()
+            cur["applied_filters"].pop()
+        elif op == "assign-n_mazes":
+            cfg.n_mazes = cfg.n_mazes + 7
+            cur["n_mazes"] += 7
+        elif op == "assign-name":
+            cfg.name = cfg.name + "m"
+            cur["name"] += "m"
+        elif op == "assign-seed":
+            cfg.seed = (cfg.seed + 1) % 2**31
+            cur["seed"] = (cur["seed"] + 1) % 2**31
+        elif op == "assign-grid_n":
+            cfg.grid_n = cfg.grid_n + 1
+            cur["grid_n"] += 1
+        text2 = json.dumps(cfg.serialize())
+        fresh = make_cfg(cur)
+        text_f = json.dumps(fresh.serialize())
+        h2 = cfg.stable_hash_cfg()
+        fn2 = cfg.to_fname()
+        events.append(["mut", i, step, op, core.digest(text2), str(h2), fn2, text2 == text_f])
+        if text2 != text_f:
+            # the harness' picture of the content diverged from the object's (never seen on the unchanged tree); not judged
+            return
+        h_f = fresh.stable_hash_cfg()
+        if h2 != h_f:
+            raise core.Violation(
+                "C18.hash-depends-only-on-content",
+                f"config #{i}: after the in-place step {op!r} the live object hashes to {h2}, but a freshly built configuration with identical serialised text hashes to {h_f} (the object had been hashed before the step)",
+            )
+        if text2 != text_prev and h2 == h_prev:
+            raise core.Violation("C18.hash-discriminates", f"config #{i}: the step {op!r} changed the serialised content but not the hash")
+        if fn2 != fname_model(cfg, h_f):
+            raise core.Violation("C18.fname", f"config #{i}: after {op!r} to_fname() = {fn2!r}, expected {fname_model(cfg, h_f)!r}")
+        h_prev, text_prev = h2, text2
+
+
 def st_history(spec):
     """returns {"violations": [[oracle,msg,key]...], "events": [...]}; events are compared across processes"""
     import warnings
@@ -205,6 +276,8 @@ def st_history(spec):
                 if json.dumps(loaded.serialize()) != text:
                     raise core.Violation("C18.roundtrip-equal", f"config #{i}: serialised text of the loaded copy differs from the original's")
             n_checked += 1
+            if spec.get("mutate", True) and i % 2 == 1:
+                _mutation_phase(spec, i, cs, cfg, h, events)
             if spec.get("variants", True) and i % 3 == 0:
                 for field, vs in variants(cs):
                     vc = make_cfg(vs)
@@ -227,7 +300,8 @@ def st_history(spec):
                 viols.append(["C18.roundtrip-equal", "collection configuration does not round-trip through JSON text", None])
     except Exception as e:  # noqa: BLE001
         events.append(["coll-failed", type(e).__name__])
-    return {"violations": viols, "events": events, "checked": n_checked}
+    muts = [e for e in events if e and e[0] == "mut"]
+    return {"violations": viols, "events": events, "checked": n_checked, "mut_steps": len(muts), "mut_unjudged": sum(1 for e in muts if not e[-1])}
 
 
 FRESH_CODE = r"""
@@ -254,7 +328,7 @@ def run(spec: dict, ctx) -> dict:
     log = core.EventLog()
     res = core.stage(st_history, spec, timeout=500.0)
     log.add("events", res["events"])
-    stats = {"configs_checked": res["checked"]}
+    stats = {"configs_checked": res["checked"], "inplace_mutation_steps_judged": res.get("mut_steps", 0) - res.get("mut_unjudged", 0), "inplace_mutation_steps_unjudged": res.get("mut_unjudged", 0)}
     if "fresh" in spec:
         r2 = fresh_history(spec, spec["fresh"]["hashseed"], ctx.repo)
         stats["probe_fresh_interpreter"] = 1
